@@ -194,6 +194,42 @@ def gen_idiom_repo(rng):
     return dict(tree=tree, ignores=ignores, ci=rng.random() < 0.1)
 
 
+def gen_blank_repo(rng):
+    """names with blanks, written with an UNESCAPED inner blank followed only by escapes (and blanks) up to the end
+    of the line: git drops only the unescaped trailing run (`a \\b` is the name "a b", `c \\ ` is "c  "); the files
+    named like the truncated prefixes exist too, so a wrong cut shows in the listing"""
+    tree = {}
+    lines = []
+    for _ in range(rng.randint(1, 3)):
+        pre = rng.choice([b"a", b"c", b"d", b"ab", b"A.", b"x-y", b"d\\ e".replace(b"\\", b"")])
+        tail = bytes(rng.choice(b"b e!a") for _ in range(rng.randint(1, 3)))
+        full = pre + b" " + tail
+        k = rng.randint(0, 3)
+        if k == 0:
+            pat = esc(pre) + b" " + b"".join(b"\\" + bytes([c]) for c in tail)          # a \b\ \!
+        elif k == 1:
+            pat = esc(pre) + b" " + b"".join((b"\\" + bytes([c])) if c in b" !" else bytes([c]) for c in tail)
+        elif k == 2:
+            pat = esc(pre) + b"\\ " + esc(tail[:1]) + b" " + b"".join(b"\\" + bytes([c]) for c in tail[1:])
+            full = pre + b" " + tail[:1] + b" " + tail[1:]
+        else:
+            pat = esc(full)
+        pat += b" " * rng.choice([0, 0, 1, 2])
+        if rng.random() < 0.2:
+            pat = b"!" + pat
+            lines.append(esc(pre) + b"*")
+        lines.append(pat)
+        sub = rng.choice([b"", b"sub/"])
+        if sub:
+            tree[b"sub"] = "d"
+        for name in {full, pre, pre + b" ", full.rstrip(b" ") or full, full + b" ", pre + b" " + tail[:1], b"keep"}:
+            if valid_name(name) and not name.endswith(b"/"):
+                tree[sub + name] = "f"
+                tree[name] = "f"
+    tree = {k: v for k, v in tree.items() if not (v == "f" and any(o.startswith(k + b"/") for o in tree))}
+    return dict(tree=tree, ignores={b"": lines}, ci=False)
+
+
 def gen_repo(rng, malformed):
     tree = gen_tree(rng)
     names = sorted({p.split(b"/")[-1] for p in tree})
@@ -637,6 +673,13 @@ CORPUS += [   # a lone `!` (empty pattern) matches nothing; it used to re-includ
     dict(tree={b"a": "f", b"d": "d", b"d/b": "f", b"c": "f"}, ignores={b"": [b"a", b"d/", b"!"]}, ci=False),
     dict(tree={b"a": "f", b"d": "d", b"d/b": "f"}, ignores={b"": [b"a", b"/", b"!/", b"! "]}, ci=False),
 ]
+CORPUS += [   # an unescaped inner blank followed only by escapes / blanks: only the unescaped trailing run is dropped
+    dict(tree={b"a": "f", b"a b": "f", b"sub": "d", b"sub/a": "f", b"sub/a b": "f", b"keep": "f"}, ignores={b"": [b"a \\b"]}, ci=False),
+    dict(tree={b"c": "f", b"c ": "f", b"c  ": "f", b"keep": "f"}, ignores={b"": [b"c \\ "]}, ci=False),
+    dict(tree={b"d e": "f", b"d e !": "f", b"d": "f", b"keep": "f"}, ignores={b"": [b"d\\ e \\!"]}, ci=False),
+    dict(tree={b"x": "f", b"x  y": "f", b"x ": "f"}, ignores={b"": [b"x \\ \\y  "]}, ci=False),
+    dict(tree={b"plain": "f", b"plain  ": "f", b"p q": "f", b"p": "f"}, ignores={b"": [b"plain  ", b"p*", b"!p \\q "]}, ci=False),
+]
 KNOWN_CORPUS = [
     dict(tree={b"a": "d", b"a/c": "f", b"abc": "f", b"a-c": "f"}, ignores={b"": [b"a[!b]c"]}, ci=False),          # class vs '/'
     dict(tree={b"a": "f", b"b": "f", b"{a,b}": "f"}, ignores={b"": [b"{a,b}"]}, ci=False),                       # D12
@@ -653,7 +696,9 @@ def run(ctx):
     check_repos(ctx, CORPUS)
     check_repos(ctx, KNOWN_CORPUS)
     n = ctx.count(220)
-    repos = [gen_idiom_repo(rng) if i % 5 == 0 else gen_repo(rng, rng.random() < 0.25) for i in range(n)]
+    repos = [gen_idiom_repo(rng) if i % 5 == 0 else (gen_blank_repo(rng) if i % 7 == 3 else gen_repo(rng, rng.random() < 0.25))
+             for i in range(n)]
+    ctx.cov["blank_escape_repos"] = sum(1 for i in range(n) if i % 5 != 0 and i % 7 == 3)
     ctx.cov["idiom_repos"] = sum(1 for i in range(n) if i % 5 == 0)
     check_repos(ctx, repos)
     check_one_file(ctx, CORPUS + KNOWN_CORPUS + repos)
